@@ -54,3 +54,12 @@ func outTypes(funTyp reflect.Type) []reflect.Type {
 	}
 	return typeList
 }
+
+// givenList 将 When()/Return() 无参调用时的 nil 变参转换为空列表,
+// 以便和"未指定"(nil)区分开, 使参数/返回值个数检查对无参调用同样生效
+func givenList(values []interface{}) []interface{} {
+	if values == nil {
+		return []interface{}{}
+	}
+	return values
+}
